@@ -20,7 +20,8 @@
      Place (solvers)         PipelineOnly: AddTask(Pipelined) | Unevict (pod virtually evicted, same
                              groups) | Consolidate (virtually evicted fraction pod moved to other group)
      Evict                   UpdateTask(-> Releasing)
-     UndoLast                Rollback/Discard: unallocate/unpipeline = RemoveTask, unevict = UpdateTask
+     UndoLast                Rollback/Discard: unallocate/unpipeline = RemoveTask (+ RestoreSharedPodInfoOnPreviousGPU
+                             when the pipeline had moved the pod to another GPU group), unevict = UpdateTask
                              or AddTask when the pod is no longer on the node
      Convert*                ConvertAllAllocatedToPipelined: per allocate op in log order:
                              unallocate (RemoveTask) then ConvPipeline = Pipeline(update) (AddTask(Pipelined, same groups))
@@ -39,8 +40,7 @@ CONSTANTS NGpu, GpuMem, NodeCpu, MaxPods,  \* the node
           GroupSeq,   \* sequence of GPU group names; the i-th fresh group (a new UUID in the code) is GroupSeq[i]
           SnapSt,     \* statuses a snapshot may add
           MaxSnap,    \* bound on snapshot pods
-          MaxOps,     \* bound on the number of steps of a behaviour (nops = depth)
-          Excl        \* set of excluded operation patterns (see the guards that mention Excl)
+          MaxOps      \* bound on the number of steps of a behaviour (nops = depth)
 
 VARIABLES nd, kinds, pods, ghost, A, log, phase, pc, seen, nops, act, taint
 
@@ -366,13 +366,18 @@ PlaceB(p) ==
 UndoLast ==
   /\ phase = "sess" /\ pc = <<>> /\ Len(log) > 0 /\ nops < MaxOps
   /\ LET e == log[Len(log)] IN
-     /\ "ConsUndo" \in Excl => e[2] # "cons"
      /\ log' = SubSeq(log, 1, Len(log) - 1)
      /\ CASE e[2] = "alloc" -> Do("Unallocate", "Remove", e[1], "None", <<>>) /\ ghost' = ghost
           [] e[2] = "pipe"  -> Do("Unpipeline", "Remove", e[1], "None", <<>>) /\ ghost' = ghost
-          [] e[2] = "cons"  -> Do("Unpipeline", "Remove", e[1], "None", <<>>) /\ ghost' = ghost
+          \* unpipeline of a moved pod: RemoveTask of the nominated copy, then
+          \* RestoreSharedPodInfoOnPreviousGPU puts the entry of the terminating copy back (entry only,
+          \* its resources were never removed)
+          [] e[2] = "cons"  -> /\ A' = ApplyCall(A, "Remove", e[1], "None", <<>>, pods[e[1]].st, pods[e[1]].grp)
+                               /\ pods' = [pods EXCEPT ![e[1]] = ghost[e[1]]]
+                               /\ ghost' = [ghost EXCEPT ![e[1]] = NoEnt]
+                               /\ act' = Lbl("UnpipelineMoved", "Remove", e[1], ghost[e[1]].st, ghost[e[1]].grp)
+                               /\ nops' = nops + 1
           [] e[2] = "evict" -> /\ Do("Unevict", UnevictCall(e[1]), e[1], e[4], e[5])
-                              \* the terminating incarnation is the pod itself again
                               /\ ghost' = IF pods[e[1]].st = "None" THEN [ghost EXCEPT ![e[1]] = NoEnt] ELSE ghost
   /\ UNCHANGED <<nd, kinds, phase, pc, seen>>
 
